@@ -273,6 +273,58 @@ def run(prop, tier, seed, replay):
                     if model_ops[k] and not no_model:
                         reqs.append(f"h{hi}{k} hist {len(model_ops[k])} " + " ".join(model_ops[k]))
                         expect.append((states[k], rep, k))
+        # ---- stratum: patch pairs that are linked by the narrowest margin (the outermost objects of two neighbouring patches,
+        #      in line with both centres, separated by the largest scale minus 3e-11 rad).  What a handle knows about its
+        #      patches (centres, radii) decides such a link: created, reopened and re-reopened handles, before and after tree
+        #      builds, must give the measurement of fresh caches — two runs of the implementation compared bit for bit
+        from yaw import Configuration as _Conf
+        with C.Workers(1):
+            nprng_m = np.random.default_rng(rng.randrange(2 ** 32))
+            ras, pids = [], []
+            npair = 8
+            for q in range(npair):
+                base = 0.3 + 0.5 * q + float(nprng_m.uniform(0, 1e-3))
+                jit = nprng_m.uniform(0, 1e-4, 6)
+                left = [base, base + 0.0005 + jit[0], base + 0.001 + jit[1], base + 0.010]                 # facing object: base + 0.010
+                right = [base + 0.030, base + 0.039 + jit[2], base + 0.0395 + jit[3], base + 0.040]        # facing object: base + 0.030
+                ras += left + right
+                pids += [2 * q] * 4 + [2 * q + 1] * 4
+            ras, pids = np.array(ras), np.array(pids)
+            decs = np.zeros_like(ras)
+            zs = np.full_like(ras, 0.5)
+            sep = float(np.min([ras[8 * q + 4] - ras[8 * q + 3] for q in range(npair)]))
+
+            def make(tag):
+                return (C.make_catalog(root / f"{tag}_D", ras, decs, z=zs, patch=pids),
+                        C.make_catalog(root / f"{tag}_R", ras, decs, z=zs, patch=pids))
+
+            def measure_m(pair):
+                return yaw.autocorrelate(conf_m, pair[0], pair[1], count_rr=True)
+
+            def reopen(tag):
+                return (Catalog(root / f"{tag}_D"), Catalog(root / f"{tag}_R"))
+            conf_m = _Conf.create(rmin=0.015, rmax=sep + 3e-11 + 1e-13, unit="rad", edges=[0.1, 1.0])
+            # (only pairs whose facing objects are exactly `sep` apart up to 1e-13 are marginal; the others are linked clearly
+            #  or not at all — what matters is that every handle sees the SAME links)
+            fresh_m = measure_m(make("mf"))
+            cat_m = make("mh")
+            results = {"created handle": measure_m(cat_m)}
+            results["reopened handle"] = measure_m(reopen("mh"))
+            again = reopen("mh")
+            again[0].build_trees([0.1, 1.0], closed="right", force=True)
+            results["reopened after a forced build"] = measure_m(reopen("mh"))
+            ck.case(None, ("marginal-links", npair))
+            ck.count("stratum=marginal-links")
+            for label, res_m in results.items():
+                if not all(x == y for x, y in zip(res_m, fresh_m)):
+                    a_, b_ = res_m[0].dd.counts.counts.sum(), fresh_m[0].dd.counts.counts.sum()
+                    ck.add_violation(f"autocorrelation of 16 patches whose neighbours are linked by a margin of 3e-11 rad: the {label} "
+                                     f"counts {a_} pairs, fresh caches {b_}",
+                                     {"history": [["create"], [label], ["auto"]], "ra": ras.tolist(), "patch": pids.tolist(),
+                                      "rmax_rad": sep + 3e-11 + 1e-13})
+                    break
+            for t_ in ("mf_D", "mf_R", "mh_D", "mh_R"):
+                C.remove(root / t_)
     finally:
         C.remove(root)
     ans = ck.driver("GenCache", reqs)
